@@ -19,5 +19,6 @@ PROP = dict(
     assumptions=["go-moremath is the pinned dependency version of /repo/go.mod"],
     units=[
         R("rapid", "A", "./c13", "TestC13Rapid", (3000, 8), (80000, 16)),
+        R("cli", "B", "./cmd/benchstat", "TestC13CLI", (300, 4), (4000, 8)),
     ],
 )
